@@ -10,6 +10,7 @@ import (
 	"fmt"
 	"io"
 	"os"
+	"reflect"
 	"strings"
 	"testing"
 	"unicode/utf8"
@@ -37,23 +38,57 @@ func order(be bool) binary.ByteOrder {
 	return binary.LittleEndian
 }
 
-// hasBadString reports whether some string field of f, cut to its profile
-// length, is not valid UTF-8 (signature of finding D9).
+// hasBadString reports whether the part of some string field of f that
+// Encode writes - the first profile-length-minus-one bytes, cut back to the
+// start of a character - is not valid UTF-8 (signature of finding D9). Bytes
+// of a longer decoded string that lie behind that part are never written and
+// do not count.
 func hasBadString(f *fit.File) bool {
+	tab := prof.Table()
 	for _, s := range append(prof.FileSlots(), prof.Slots(f.Type())...) {
 		for _, m := range prof.SlotMsgs(f, s) {
+			m = reflect.Indirect(m)
 			if !m.IsValid() {
 				continue
 			}
+			num, _ := prof.MsgNumOfType(m.Type().Name())
+			mi := tab.Msgs[num]
 			for i := 0; i < m.NumField(); i++ {
 				v := prof.FromReflect(m.Field(i))
-				if v.K == 's' && !utf8.ValidString(v.S) {
-					return true
+				size := 0
+				if mi != nil && i < len(mi.BySIdx) && mi.BySIdx[i] != nil {
+					size = mi.BySIdx[i].Length
+				}
+				switch {
+				case v.K == 's':
+					if !writtenPartValid(v.S, size) {
+						return true
+					}
+				case v.K == 'a':
+					for _, e := range v.Elems {
+						if e.K == 's' && !utf8.ValidString(e.S) {
+							return true
+						}
+					}
 				}
 			}
 		}
 	}
 	return false
+}
+
+func writtenPartValid(s string, size int) bool {
+	if size < 1 {
+		return utf8.ValidString(s)
+	}
+	n := len(s)
+	if n > size-1 {
+		n = size - 1
+		for n > 0 && !utf8.RuneStart(s[n]) {
+			n--
+		}
+	}
+	return utf8.ValidString(s[:n])
 }
 
 // typeChanged reports the signature of D13: the File's type no longer has the
